@@ -76,7 +76,7 @@ def adaptive_tdvp(fun):
             mps_half1 = fun(cur_mps, mpo, dt / 2)
             mps_half2 = fun(mps_half1, mpo, dt / 2)
             mps = fun(cur_mps, mpo, dt)
-            dis = mps.distance(mps_half2)
+            dis = MatrixProduct.distance(mps, mps_half2)
 
             # prevent bug. save "some" memory.
             del mps_half1, mps
@@ -838,7 +838,7 @@ class Mps(MatrixProduct):
                 new_mps2 = compressed_sum(
                     [new_mps1, scaled_termlist[-1]]
                 )
-                dis = new_mps1.distance(new_mps2)
+                dis = MatrixProduct.distance(new_mps1, new_mps2)
                 p = (config.adaptive_rtol / (dis/new_mps2.mp_norm + 1e-30)) ** (1/order)
                 logger.debug(f"RK45 error distance: {dis}, enlarge p parameter: {p}")
 
@@ -1808,12 +1808,13 @@ class Mps(MatrixProduct):
         return super().add(other)
     
     def distance(self, other) -> float:
-        if not np.allclose(self.coeff, other.coeff):
+        if self.coeff != other.coeff:
             self.scale(self.coeff, inplace=True)
             other.scale(other.coeff, inplace=True)
             self.coeff = 1
             other.coeff = 1
-        return super().distance(other)
+        # a common prefactor scales the distance
+        return float(np.abs(self.coeff) * super().distance(other))
 
 
 def projector(
